@@ -79,6 +79,21 @@ def _stats(cin):
     return {"res": "ok", "m": m, "rhosign": sign, "perfect": bool(float(bm.sse) == 0.0)}
 
 
+def _calstats(cin):
+    from opendsm.eemeter.models.hourly_caltrack.metrics import ModelMetrics
+    n = len(cin["obs"])
+    idx = pd.date_range("2020-01-01", periods=n, freq="h", tz="UTC")
+    obs = pd.Series([float(c["v"]) for c in cin["obs"]], index=idx)[[c["f"] for c in cin["obs"]]]
+    pred = pd.Series([float(c["v"]) for c in cin["pred"]], index=idx)[[c["f"] for c in cin["pred"]]]
+    if cin["order"] == "reversed":
+        pred = pred.iloc[::-1]
+    import warnings
+    with warnings.catch_warnings():
+        warnings.simplefilter("ignore")
+        mm = ModelMetrics(obs, pred, num_parameters=cin["p"])
+    return {"res": "ok", "n": int(mm.merged_length), "rmse2": snap(sq(mm.rmse))}
+
+
 def _tq(cin):
     import math
     p = 2
@@ -171,7 +186,7 @@ def _stored(cin):
 
 def realise(cin, variant):
     try:
-        return {"stats": _stats, "gate": _gate, "stored": _stored, "tq": _tq}[cin["kind"]](cin)
+        return {"stats": _stats, "gate": _gate, "stored": _stored, "tq": _tq, "calstats": _calstats}[cin["kind"]](cin)
     except Exception as ex:
         import traceback
         return {"res": type(ex).__name__, "err": (str(ex) + traceback.format_exc())[-300:]}
